@@ -27,7 +27,7 @@ BUSES = {"low_rom": (0x01, 0x8000, 0x10000), "high_rom": (0x41, 0x0000, 0x10000)
 
 def bound(tier):
     r = 400 if tier == "thorough" else 160
-    return f"7 supported + 2 unsupported branch mnemonics x d in [-{r},{r}] x 3 forms x 4 placements x 3 origins/relocations x 2 buses + RAM-space families + same source alternately under both mappings in one process"
+    return f"7 supported + 2 unsupported branch mnemonics x d in [-{r},{r}] x 3 forms x 4 placements x 3 origins/relocations x 2 buses + RAM-space families + same source alternately under both mappings in one process + far same-bank targets, branches after an .incbin of 16..4096 bytes, forward branches to a label shadowing an outer one"
 
 
 def cases(tier, seed):
@@ -40,6 +40,7 @@ def cases(tier, seed):
                         yield ("rom", busname, mn, form, place, reloc, r)
         for mn in SUPPORTED:
             yield ("two-mappings", busname, mn)
+            yield ("extras", busname, mn)
             for fam in ("ram-run-rom-target", "rom-run-ram-target", "ram-run-ram-target", "ram-run-rom-literal"):
                 yield ("ram", busname, mn, fam)
 
@@ -231,7 +232,78 @@ def run_two_mappings(first_bus, mn):
     return {"evals": n, "nt_count": n, "outcome": "two-mappings-ok" if not viol else "TWO-MAPPINGS-DIFFER", "violations": viol[:6]}
 
 
+def run_extras(busname, mn):
+    """(a) same-bank targets a whole bank away (displacement about +-65500: must be rejected, never reduced modulo the bank);
+    (b) a branch after a large .incbin (the position bookkeeping must follow the file); (c) a forward branch to a label that
+    shadows an outer label of the same name (the local one is the target)."""
+    bank, wlo, whi = BUSES[busname]
+    ref = refbus.BUILTIN[busname]()
+    op = isa.BY_MNEMONIC[mn]["rel"]
+    viol = []
+    n = 0
+    outcomes = set()
+    base = bank << 16
+    # (a)
+    for br_off, tgt_off in ((whi - 0x10, wlo + 5), (whi - 2, wlo), (wlo, whi - 1), (wlo + 0x20, whi - 0x10), (whi - 0x80, wlo + 0x7F)):
+        for literal in (True, False):
+            if literal:
+                src = f"*=0x{base + br_off:06x}\n{mn} 0x{base + tgt_off:06x}\n"
+            elif tgt_off < br_off:
+                src = f"*=0x{base + tgt_off:06x}\nfar:\n.db 1\n*=0x{base + br_off:06x}\n{mn} far\n"
+            else:
+                src = f"*=0x{base + br_off:06x}\n{mn} far\n*=0x{base + tgt_off:06x}\nfar:\n.db 1\n"
+            out = impl.assemble(src, rom=busname)
+            n += 1
+            if out.accepted:
+                viol.append({"key": "branch:out-of-range-accepted:far-same-bank", "msg": f"{busname}: {out.brief()} :: {src!r}"})
+                outcomes.add("FAR-ACCEPTED")
+            else:
+                outcomes.add("far-rejected")
+    # (b)
+    for size in (0x10, 0x3FF, 0x400, 0x401, 0x1000):
+        for d in (-128, -3, 0, 5, 127, 128, -129):
+            blob = bytes((i * 3 + 1) & 0xFF for i in range(size))
+            start = base + wlo + 0x100
+            if d < 0:
+                k = -d - 2
+                if k < 0:
+                    continue
+                src = f"*=0x{start:06x}\n.incbin 'blob{size}.bin'\ntgt:\n" + filler(k) + f"{mn} tgt\n"
+                exp = blob + bytes(k) + bytes([op, d & 0xFF])
+            else:
+                src = f"*=0x{start:06x}\n.incbin 'blob{size}.bin'\n{mn} tgt\n" + filler(d) + "tgt:\n.db 0xEA\n"
+                exp = blob + bytes([op, d & 0xFF]) + bytes(d) + b"\xEA"
+            out = impl.assemble(src, rom=busname, files={f"blob{size}.bin": blob})
+            n += 1
+            if -128 <= d <= 127:
+                if not out.accepted or out.blocks != [(ref.phys(start), exp)]:
+                    viol.append({"key": "branch:wrong-displacement:after-incbin", "msg": f"{busname} size={size:#x} d={d}: {out.brief()[-70:]} :: {src[:90]!r}"})
+                    outcomes.add("AFTER-INCBIN-WRONG")
+                else:
+                    outcomes.add("after-incbin-ok")
+            elif out.accepted:
+                viol.append({"key": "branch:out-of-range-accepted:after-incbin", "msg": f"{busname} size={size:#x} d={d}: {out.brief()[-70:]}"})
+    # (c)
+    for outer_dist in (3, 0x90):
+        for d in (0, 3, 127):
+            start = base + wlo + 0x200
+            for wrapper in ("{\n%s}\n", ".macro mwb() {\n%s}\nmwb()\n", ".for qi := 0, 1 {\n%s}\n", ".scope nsb {\n%s}\n"):
+                inner = f"{mn} tgt\n" + filler(d) + "tgt:\n.db 0xEA\n"
+                src = f"*=0x{start:06x}\ntgt:\n" + filler(outer_dist) + (wrapper % inner)
+                out = impl.assemble(src, rom=busname)
+                n += 1
+                exp = bytes(outer_dist) + bytes([op, d & 0xFF]) + bytes(d) + b"\xEA"
+                if not out.accepted or out.blocks != [(ref.phys(start), exp)]:
+                    viol.append({"key": "branch:wrong-displacement:forward-to-shadowing-label", "msg": f"{busname} d={d}: {out.brief()[-70:]} :: {src!r}"})
+                    outcomes.add("SHADOW-WRONG")
+                else:
+                    outcomes.add("shadow-ok")
+    return {"evals": n, "nt_count": n, "outcome": sorted(outcomes), "violations": viol[:8]}
+
+
 def run_case(case):
+    if case[0] == "extras":
+        return run_extras(case[1], case[2])
     if case[0] == "two-mappings":
         return run_two_mappings(case[1], case[2])
     if case[0] == "rom":
